@@ -285,6 +285,11 @@ def check(dump, build, factor_budget_s=20):
         if not ok:
             bad(name, f"does not satisfy: {why}", str(C[name]))
 
+    for k in list(C.keys()):
+        if k.endswith(" as an operand") or k.endswith(" as operands"):
+            checks.append((k, "satisfies"))
+            if C[k]:
+                bad(k, "the constant object does not behave as the field element / group element it prints as under: " + ", ".join(C[k]), str(C[k]))
     # complete / partial factorisations of m-1
     fact = {}
     fq_primes, unf = factor(X, 10)
